@@ -21,7 +21,7 @@ Proof.
     rewrite E. cbn [obind]. discriminate.
   - cbn [k_new art1K]. unfold art1_new, art1_scale, odiv.
     match goal with |- context [if ?b then _ else _] => assert (E : b = false) end.
-    { cbn. apply Reqb_false. assert (0 <= IZR (Z.of_nat (length x))) by (apply IZR_le; lia). lra. }
+    { cbn. apply Reqb_false. pose proof (l1norm_nonneg x). cbn in *. lra. }
     rewrite E. cbn [obind]. discriminate.
 Qed.
 
